@@ -237,7 +237,14 @@ def return_assignments(body):
                 out.append((bi, si, kind, body.term_of_rvalue(rv)))
         t = blk["t"]
         if t["k"] == "call" and t["dest"] == [0]:
-            out.append((bi, None, "call:%s" % (t["res"] or t["fn"]), None))
+            fn = t["res"] or t["fn"] or ""
+            if fn.endswith("FromResidual::from_residual") or "FromResidual<" in fn and fn.endswith("::from_residual"):
+                # `expr?` propagating a failure is an error return like `return Err(..)` / `return None`
+                ret_ty = body.locals[0] if body.locals else ""
+                kind = "None" if ret_ty.startswith("core::option::Option") else "Err"
+                out.append((bi, None, kind, None))
+            else:
+                out.append((bi, None, "call:%s" % fn, None))
     return out
 
 
